@@ -226,7 +226,10 @@ Definition spec_step (t : tree) (o : gop) : tree * string :=
     end
   | GCopyTo d =>
     match t, abs d with
-    | TMap _ es, TMap h _ => (t, "ok;" ++ pr_tree (strip (TMap h es)) ++ ";sh=0")
+    | TMap _ es, TMap h _ =>
+      (* a destination pointer that is itself nil leaves nothing to fill: the property is silent *)
+      if match d with ANilMap nf => nil_is_pointer nf | _ => false end then (t, "*")
+      else (t, "ok;" ++ pr_tree (strip (TMap h es)) ++ ";sh=0")
     | _, _ => (t, "*")
     end
   | GReset => (treset t, "ok;" ++ pr_tree (treset t))
@@ -276,16 +279,25 @@ Definition path_class (x : any) (p : list string) : string :=
   | _ => match tnav (abs x) p with NFound _ => "resolve" | NAbsent => "absent" | NNonMap => "nonmap" end
   end.
 
-(* does following p reach a nil holder before its last key is consumed? *)
-Fixpoint crosses_nil (x : any) (p : list string) : bool :=
+(* the nil holder following p runs into before its last key is consumed *)
+Fixpoint nil_on_path (x : any) (p : list string) : option nilform :=
   match p with
-  | [] => false
+  | [] => None
   | k :: rest =>
     match x with
-    | ANilMap _ => true
-    | AMap _ _ es => match lookup k es with Some c => crosses_nil c rest | None => false end
-    | _ => false
+    | ANilMap nf => Some nf
+    | AMap _ _ es => match lookup k es with Some c => nil_on_path c rest | None => None end
+    | _ => None
     end
+  end.
+
+(* set-nil: the path reaches a nil holder there is no pointer to store a map
+   through (a nil map held by value, a nil pointer); set-nilmade: it reaches a
+   non-nil pointer to a nil map, which Set makes *)
+Definition set_class (x : any) (p : list string) : string :=
+  match nil_on_path x p with
+  | Some nf => if nil_storable nf then "set-nilmade" else "set-nil"
+  | None => "set"
   end.
 
 Fixpoint depth (fuel : nat) (x : any) : nat :=
@@ -363,6 +375,8 @@ Definition dsts : list any :=
   [AMap OOther FPtr []; AMap OOther FPtr2 [("old", AStr OOther "value"); ("a", AMap OOther FVal [("x", AInt KInt 1)])];
    AMap OOther FPtr [("a", AInt KInt 9)]].
 Definition nil_dsts : list any := [ANilMap NPtrMap; ANilMap NPtr2PtrMap].
+(* nil destination pointers: CopyTo has nothing to store through (correspondence only) *)
+Definition nilptr_dsts : list any := [ANilMap NPtr; ANilMap NPtr2; ANilMap NPtr2Ptr].
 
 Fixpoint number {A} (i : nat) (l : list A) : list (nat * A) :=
   match l with [] => [] | x :: r => (i, x) :: number (S i) r end.
@@ -385,8 +399,7 @@ Definition tree_cases (pre : string) (setstride : nat) (x : any) : list string :
          map (fun jv : nat * any =>
                 let '(j, v) := jv in
                 case_line (pre ++ "s" ++ nat_to_string i ++ "v" ++ nat_to_string j)
-                          ((if crosses_nil x p || (match p, x with _ :: _, ANilMap _ => true | _, _ => false end)
-                            then "set-nil" else "set") ++ "," ++ path_class x p ++ "," ++ bt)
+                          (set_class x p ++ "," ++ path_class x p ++ "," ++ bt)
                           x [GSet p v; GGet p; GLen p; GCap p; GGet []])
              (every_nth setstride (number 0 set_values)))
       (number 0 pv) ++
@@ -406,7 +419,11 @@ Definition tree_cases (pre : string) (setstride : nat) (x : any) : list string :
   map (fun id : nat * any =>
          let '(i, d) := id in
          case_line (pre ++ "u" ++ nat_to_string i) ("copyto-dstnil," ++ bt) x [GCopyTo d])
-      (number 0 nil_dsts).
+      (number 0 nil_dsts) ++
+  map (fun id : nat * any =>
+         let '(i, d) := id in
+         case_line (pre ++ "w" ++ nat_to_string i) ("silent,copyto-dstnilptr," ++ bt) x [GCopyTo d])
+      (number 0 nilptr_dsts).
 
 (* ---------- random trees and histories ---------- *)
 Definition key_pool : list string := ["a"; "b"; "c"; "k1"; ""; utf; "zz"].
